@@ -391,6 +391,9 @@ def run_pair_check(prop, tier, seed):
     if prop == "C16":
         jobs = [(j, seed * 100000 + j) for j in range(n)]
         fn = pairs.pair_c16
+    elif prop == "C20":
+        jobs = [(j, seed * 100000 + j) for j in range(n // 2)]
+        fn = pairs.pair_c20
     else:
         jobs = [(j, seed * 100000 + j // 4, 1 + j % 4) for j in range(n)]
         fn = pairs.pair_c15
@@ -430,7 +433,17 @@ def run_pair_check(prop, tier, seed):
           "assumptions": ["string equality of repr() is bit identity", "TLC evaluates CiwPair.tla correctly"],
           "violations": len(viol), "wall_s": round(time.time() - t0, 1)}
     if not os.environ.get("CIWVERIF_NOEVIDENCE"):
-        json.dump(ev, open(os.path.join(VERIF, "evidence", prop + ".json"), "w"), indent=1)
+        evp = os.path.join(VERIF, "evidence", prop + ".json")
+        if prop == "C20" and os.path.exists(evp):
+            # C20: the pair part (agreement with the float run) complements the tick-pipeline run that just wrote the file
+            base = json.load(open(evp))
+            base["coverage"]["float_agreement_pairs"] = len(docs)
+            base["coverage"]["float_agreement_pair_violations"] = len(viol)
+            base["coverage"]["traces_validated_against_impl"] += len(docs)
+            base["violations"] = base.get("violations", 0) + len(viol)
+            base["wall_s"] = round(base["wall_s"] + time.time() - t0, 1)
+            ev = base
+        json.dump(ev, open(evp, "w"), indent=1)
     seenk = set()
     for f, clause, d in kf:
         if (f["id"], clause) in seenk:
@@ -468,6 +481,8 @@ def main():
             rc = run_pair_check(a.prop, a.tier, seed)
         else:
             rc = run_check(a.prop, a.tier, seed)
+            if a.prop == "C20" and rc != 2:
+                rc = max(rc, run_pair_check("C20", a.tier, seed))
     except Exception:
         log("MACHINERY-ERROR", traceback.format_exc())
         rc = 2
